@@ -222,6 +222,19 @@ func c03Stress(kind string, n int) string {
 		return "counter c\n/" + rep("(a{1000}){1000}", 1+n/1000) + "/ {\n  c++\n}\n"
 	case "const-concat":
 		return "counter c\nconst A /" + rep("a", 50) + "/\n/x/" + rep(" + A", n) + " {\n  c++\n}\n"
+	case "const-doubling":
+		// every fragment is twice the previous one: the source is n short lines
+		d := n
+		if d > 60 {
+			d = 60
+		}
+		var sb strings.Builder
+		sb.WriteString("counter c\nconst A0 /a/\n")
+		for i := 1; i <= d; i++ {
+			fmt.Fprintf(&sb, "const A%d // + A%d + A%d\n", i, i-1, i-1)
+		}
+		fmt.Fprintf(&sb, "/x/ + A%d {\n  c++\n}\n", d)
+		return sb.String()
 	case "unterminated-string":
 		return "counter c\n/a/ {\n  c = len(\"" + rep("x", n)
 	case "unterminated-regex":
@@ -249,7 +262,7 @@ func c03Stress(kind string, n int) string {
 	return ""
 }
 
-var c03StressKinds = []string{"parens", "tilde", "chain-add", "chain-and", "chain-right", "blocks", "else-tower", "deco-tower", "nested-int", "index-tower", "long-regex", "counted-repetition", "const-concat", "unterminated-string", "unterminated-regex", "huge-int", "many-decls", "buckets"}
+var c03StressKinds = []string{"parens", "tilde", "chain-add", "chain-and", "chain-right", "blocks", "else-tower", "deco-tower", "nested-int", "index-tower", "long-regex", "counted-repetition", "const-concat", "const-doubling", "unterminated-string", "unterminated-regex", "huge-int", "many-decls", "buckets"}
 
 func splitTokens(s string) []string {
 	var toks []string
@@ -311,6 +324,7 @@ func TestC03(t *testing.T) {
 					continue
 				}
 				c := c03Case{Src: vstat.Q(c03Stress(kind, d))}
+				vstat.Begin(c) // a shape that exhausts memory kills the process: the driver reports this case
 				f, res := runC03(c)
 				record(c, res)
 				st.Class("stress:" + kind)
